@@ -134,7 +134,7 @@ REGISTRY = {
     },
     "C11": {
         "level": "proof", "modules": ["SkaModel.Props.C11", "SkaModel.Props.C11Offsets", "SkaModel.Props.C18Derep", "SkaModel.Props.C17Pipe", "SkaModel.Props.C17Ref", "SkaModel.Props.C17Union"], "gen": [], "cli": [cli.c11_cli, cli.joint_reads_cli, cli.auto_mincount_cli, cli.c11_scale_cli],
-        "rule": "CLI matrix subcommand x input kind x threads x repetitions x sample counts on both sides of the 10-samples-per-thread rule (each process draws fresh hash seeds); non-trivial = distinct (sample count) families compared",
+        "rule": "a file of more than 32768 (thorough: 131072) split k-mers through distance / align / map with --threads 1/2/4: same exit status and result, distance = planted SNP count (c11_scale_cli); CLI matrix subcommand x input kind x threads x repetitions x sample counts on both sides of the 10-samples-per-thread rule (each process draws fresh hash seeds); non-trivial = distinct (sample count) families compared",
         "trusted_base": COMMON_TRUST, "assumptions": [EXTERNAL, "actual rayon scheduling and DashMap interleavings are sampled by the matrix, not proved"],
     },
     "C06": {
@@ -149,12 +149,12 @@ REGISTRY = {
     },
     "C08": {
         "level": "proof", "modules": ["SkaModel.Props.C08", "SkaModel.Props.EndToEnd"], "gen": ["C08", "C10"], "cli": [cli.make_hist_cli("C08", 40, 400), cli.c08_big_cli, cli.c08_names_cli],
-        "rule": "tables of 2-8 samples; delete sets: first, last, adjacent block, alternating, random subset, shuffled order, all (refused), unknown (refused), partly unknown (refused), none (refused); non-trivial = accepted deletions",
+        "rule": "samples whose names contain , ; : = . or are prefixes / comma-joins of other names, deleted on the command line and via -f (c08_names_cli); tables of 2-8 samples; delete sets: first, last, adjacent block, alternating, random subset, shuffled order, all (refused), unknown (refused), partly unknown (refused), none (refused); non-trivial = accepted deletions",
         "trusted_base": COMMON_TRUST, "assumptions": [EXTERNAL],
     },
     "C09": {
         "level": "proof", "modules": ["SkaModel.Props.C09", "SkaModel.Props.C09Snappy", "SkaModel.Props.C09Frame"], "gen": [], "cli": [cli.c09_cli, cli.c09_snappy_cli, cli.make_map_cli("C09", 24, 200), cli.make_hist_cli("C09", 30, 300, gen_prop="C10"), cli.route_cli],
-        "rule": "random tables for all 30 k x both widths (0-200 rows, 1-5 samples, all stored symbols; k>=33 families whose k-mers all fit in 64 bits; thorough: thousands of k-mers over several compression frames): saved by the real code, raw CBOR decoded + re-encoded by the model byte for byte; Snappy blocks written by the real compressor for every literal-length form, runs, periodic data around the 11-bit offset limit, low-entropy arrays and the serialised struct of real tables in 64 KiB blocks: parsed by the model into format elements, checked well-formed, denoting the data and re-serialising to the block, and decoded by model and snap alike, also on truncated and bit-flipped copies; CLI merge in both orders and map/weed/nk/distance/align on 64-bit-fitting k>=33 files; non-trivial = tables with at least one k-mer",
+        "rule": "CLI merges of three files in all six orders and of four files in three orders (names in argument order, tables equal up to the column permutation); random tables for all 30 k x both widths (0-200 rows, 1-5 samples, all stored symbols; k>=33 families whose k-mers all fit in 64 bits; thorough: thousands of k-mers over several compression frames): saved by the real code, raw CBOR decoded + re-encoded by the model byte for byte; Snappy blocks written by the real compressor for every literal-length form, runs, periodic data around the 11-bit offset limit, low-entropy arrays and the serialised struct of real tables in 64 KiB blocks: parsed by the model into format elements, checked well-formed, denoting the data and re-serialising to the block, and decoded by model and snap alike, also on truncated and bit-flipped copies; CLI merge in both orders and map/weed/nk/distance/align on 64-bit-fitting k>=33 files; non-trivial = tables with at least one k-mer",
         "trusted_base": COMMON_TRUST, "assumptions": [EXTERNAL, "the Snappy compressor is not modelled: its contract (every block it writes is a well-formed element stream of the format denoting its data - the hypothesis of T09_snappy_block / T09_save_load) is validated on the blocks it writes in every run (operation snapblock); serde derive is exercised, not modelled"],
     },
     "C17": {
@@ -165,7 +165,7 @@ REGISTRY = {
     },
     "C18": {
         "level": "proof", "modules": ["SkaModel.Props.C18", "SkaModel.Props.C18Derep", "SkaModel.Props.C17Pipe", "SkaModel.Props.C17Paths", "SkaModel.Props.C18Complete", "SkaModel.Props.C17Union"], "gen": ["C18"], "cli": [cli.c18_cli],
-        "rule": "insert extraction and de-replication inputs (shared entry k-mers, equal lengths, reverse-strand twins) vs the model; the reference-free pipeline in-process vs the model on indel-rich families and dense random tables (see C17); CLI: planted isolated indels (length 1-10, >= 4k apart, (k-1)-mers unique per sample), k in {11,15,21,31}, 3-8 samples, threads 1-4; every VCF record checked by substring search (carriers of REF/ALT exactly the genotyped samples, one planted indel each, none twice), recall measured; non-trivial = families that ran",
+        "rule": "every other planted family holds a strain-mixture sample (two records = two other samples) that must be genotyped 0/1 where they differ; insert extraction and de-replication inputs (shared entry k-mers, equal lengths, reverse-strand twins) vs the model; the reference-free pipeline in-process vs the model on indel-rich families and dense random tables (see C17); CLI: planted isolated indels (length 1-10, >= 4k apart, (k-1)-mers unique per sample), k in {11,15,21,31}, 3-8 samples, threads 1-4; every VCF record checked by substring search (carriers of REF/ALT exactly the genotyped samples, one planted indel each, none twice), recall measured; non-trivial = families that ran",
         "trusted_base": COMMON_TRUST + ["hooked private helpers (feature verif-hooks): extract_middle_bases, dereplicate_indels; the guarded sink record_groups in build_variant_groups"],
         "assumptions": [EXTERNAL, "T18_complete covers planted indels whose insert can slide by at most k-3 positions; indels with shift k-2 are never reported by the program (the short path is entry -> exit directly): they are the tolerated loss, and the 90% recall over random planted families is measured, not proved; the pipeline model is tied to the code by correspondence, not by translation"],
     },
@@ -192,7 +192,7 @@ REGISTRY = {
     },
     "C13": {
         "level": "proof", "modules": ["SkaModel.Props.C13", "SkaModel.Props.EndToEnd"], "gen": ["C13"], "cli": [cli.make_hist_cli("C13", 40, 400), cli.freq_sweep_cli, cli.c13_iupac_cli],
-        "rule": "tables x weed record sets that hit a random subset of rows on either strand (with N, noise, several records), forward, reverse and twice; non-trivial = distinct case lines where weeding removed or kept at least one k-mer",
+        "rule": "self-weed relation with ambiguity codes, lower case and N in the weed FASTA, forward and --reverse, both strand modes (c13_iupac_cli); tables x weed record sets that hit a random subset of rows on either strand (with N, noise, several records), forward, reverse and twice; non-trivial = distinct case lines where weeding removed or kept at least one k-mer",
         "trusted_base": COMMON_TRUST, "assumptions": [EXTERNAL],
     },
     "C14": {
